@@ -271,6 +271,41 @@ def served (t : TileJSON N) (bbox : Option (N × N × N × N)) (zmin zmax : Opti
 
 end
 
+/-! ### text level: `TileJSON::try_from(&str)` / `as_string` (`mod.rs:138-147, 430-440`) -/
+
+section
+variable {N : Type} (nu : TjNum N) (ops : NumOps N)
+
+/-- `as_string` = `self.as_object().stringify()` -/
+def toText (t : TileJSON N) : Bytes := stringify ops (.obj (asObject nu t))
+
+/-- `TileJSON::try_from(text)` = `parse_json_str(text)?.to_object()?` then `from_object` -/
+def ofText (text : Bytes) : Res (TileJSON N) :=
+  match parseBytes ops text with
+  | .ok (.obj o) => (match fromObject nu o with | some t => .ok t | none => .err)
+  | .ok _ => .err          -- "expected a JSON object"
+  | .err => .err
+  | .panic s => .panic s
+  | .fuel => .fuel
+
+/-- what the tar reader hands out for a stored metadata text (`try_from_blob_or_default` then
+    `default.merge(..)`); an unreadable text silently becomes the default document -/
+def tarRead (text : Bytes) : TileJSON N :=
+  match ofText nu ops text with
+  | .ok t => merge nu TileJSON.default t
+  | _ => TileJSON.default
+
+/-- what the directory reader hands out: the same, narrowed to the coverage found on disk -/
+def directoryRead (text : Bytes) (bbox : Option (N × N × N × N)) (zmin zmax : Option Nat) : TileJSON N :=
+  updateFromPyramid nu (tarRead nu ops text) bbox zmin zmax
+
+/-- versatiles / pmtiles readers: `try_from_blob_or_default` of the (decompressed) metadata -/
+def blobRead (text : Bytes) : TileJSON N :=
+  match ofText nu ops text with
+  | .ok t => t
+  | _ => TileJSON.default
+end
+
 /-! ### driver instantiation: binary64 via `Float` -/
 
 def f (b : UInt64) : Float := Float.ofBits b
@@ -323,6 +358,20 @@ def handleT (args : List String) : String :=
       | some t => "ok " ++ showDoc t
       | none => "err"
     | _ => "bad-op"
+  | _ => "bad-op"
+
+/-- `C17x <hex text>` → `TileJSON::try_from(text)`: `ok <tree of as_object>` | `err` -/
+def handleX (args : List String) : String :=
+  match args with
+  | [h] =>
+    match unhex h with
+    | none => "bad-op"
+    | some bs =>
+      match ofText floatNum bitsOps bs with
+      | .ok t => "ok " ++ showDoc t
+      | .err => "err"
+      | .panic _ => "panic"
+      | .fuel => "fuel"
   | _ => "bad-op"
 
 /-- `C17u <tree> <w,s,e,n | -> <zmin | -> <zmax | ->` → document after the three `limit_*` calls -/
